@@ -108,7 +108,10 @@ pub fn check_reflect(ns: &'static Namespace<'static>, g: &Graph, rec: &Dict, pro
     if let Some(m) = cmp_sets("reflect", &format!("{:?}", rec.keys().collect::<Vec<_>>()), got, want.clone()) {
         out.push(m);
     }
-    for p in probes {
+    // probes: the given symbols plus the record's own tag names (defined or not) and their conjunct spellings
+    let mut all_probes: Vec<String> = probes.to_vec();
+    all_probes.extend(rec.keys().cloned());
+    for p in &all_probes {
         let expect = want.iter().any(|d| g.fits(d, p));
         let got = refl.fits(&Symbol::from(p.as_str()));
         if got != expect {
